@@ -109,7 +109,19 @@ func addJSPoisonable(t *tape.Tape, w *World, decls D, o GenOpts, fields []string
 		}
 		w.SetTag("js.thrown-object-with-tostring", "1")
 	}
-	obj["kjs"] = cf("javascript", D{"const": "if (a == '" + BoomValue + "') { throw " + thrown + "; } a"}, D{"const": "a"}, D{"xpath": fields[idx]})
+	script := "if (a == '" + BoomValue + "') { throw " + thrown + "; } a"
+	switch t.Weighted("gen.kjs.state", 4, 1, 1) {
+	case 1:
+		// the run that fails has written a top-level variable before it throws; the next run of the
+		// script (pooled runtime) must not find it: a failing record affects only itself
+		script = "var seen; if (a == '" + BoomValue + "') { seen = 1; throw " + thrown + "; } (seen === undefined ? a : 'LEFT-BY-A-FAILED-RUN:' + a)"
+		w.SetTag("js.failing-run-writes-a-global", "var")
+	case 2:
+		// ... or a name it never declared
+		script = "if (a == '" + BoomValue + "') { leftover = 1; throw " + thrown + "; } (typeof leftover === 'undefined' ? a : 'LEFT-BY-A-FAILED-RUN:' + a)"
+		w.SetTag("js.failing-run-writes-a-global", "undeclared")
+	}
+	obj["kjs"] = cf("javascript", D{"const": script}, D{"const": "a"}, D{"xpath": fields[idx]})
 	w.JSPoisonIdx = idx + 1
 	w.UsesJS = true
 }
